@@ -28,6 +28,8 @@ func alphabetDomain(code int) *Domain {
 	case 4: // ASCII without CR
 		set(0, 0x7f)
 		d.bits[0] &^= 1 << '\r'
+	case 5: // ASCII without NUL
+		set(1, 0x7f)
 	default:
 		panic(engineErr{kind: "HARNESS", msg: fmt.Sprintf("unknown alphabet code %d", code)})
 	}
@@ -245,7 +247,6 @@ func vfThread(in *Interp, fn *ssa.Function, a []Value) Value {
 	return nil
 }
 
-func templateIntrinsic(fn *ssa.Function) intrinsic { return nil }
 
 func vfTag(in *Interp, fn *ssa.Function, a []Value) Value {
 	in.tags = append(in.tags, in.concreteStr(a[0], "vfTag label"))
